@@ -104,7 +104,13 @@ def check_dmrg(case, out, res, fail):
         if out['EH'] < out['E0'] - 1e-9 * scale:
             fail('dmrg.<H>-below-exact-ground-state-energy', f'<H>={out["EH"]!r} E0={out["E0"]!r}')
         # reported energy = energy before the last truncation; the state differs by at most the reported E_trunc
-        tol = tolE + 1.5 * out['max_E_trunc'] + 10 * out['mixer_amp'] * scale
+        # the energy change of a truncation is bounded by the discarded weight: |dE| <= 2 ||H|| sqrt(2 eps); an
+        # "E_trunc" larger than that is not a truncation effect and does not excuse a mismatch
+        bound = 4 * scale * (2 * out['last_trunc_err']) ** 0.5
+        if not out.get('cleanup') and out['last_E_trunc'] > bound + 1e-8 * scale:
+            fail('dmrg.E_trunc-exceeds-what-the-discarded-weight-allows',
+                 f'last max_E_trunc={out["last_E_trunc"]:.3e}, last max_trunc_err={out["last_trunc_err"]:.3e}, bound={bound:.3e}')
+        tol = tolE + 1.5 * min(out['max_E_trunc'], max(bound, 0.0) + 1e-9 * scale) + 10 * out['mixer_amp'] * scale
         if abs(out['E'] - out['EH']) > tol:
             sig = 'dmrg.E-differs-from-<psi|H|psi>-beyond-reported-truncation'
             if out.get('cleanup'):
